@@ -253,6 +253,7 @@ func (e *Engine) newWorker(id int) (*interpreter, error) {
 // reinit zeroes and re-initialises the globals of the packages under test and of the harness.
 func (i *interpreter) reinit() {
 	e := i.eng
+	i.setByHarness = nil
 	for _, p := range e.order {
 		if !e.isReinit(p.Pkg.Path()) {
 			continue
